@@ -1,8 +1,13 @@
-//! ad-hoc probe (bG10 scratch): dump the Debug AST of a file
-use abra_core::{MockFileProvider, check_lsp};
+//! ad-hoc probe (bG10 scratch): errors + definition_at per offset for main.abra + lib1.abra in a directory
+use abra_core::check_lsp;
 fn main() {
-    let path = std::env::args().nth(1).unwrap();
-    let src = std::fs::read_to_string(path).unwrap();
-    let a = check_lsp("main.abra", MockFileProvider::single_file(&src));
-    println!("{}", a.verif_ast_debug(0).unwrap());
+    let dir = std::env::args().nth(1).unwrap();
+    let main = std::fs::read_to_string(format!("{dir}/main.abra")).unwrap();
+    let lib = std::fs::read_to_string(format!("{dir}/lib1.abra")).unwrap_or_default();
+    let a = check_lsp("main.abra", vh::provider(&main, &[("lib1.abra".to_string(), lib)]));
+    for e in a.errors() { println!("error: {} {:?}", e.message, e.range); }
+    if std::env::args().nth(2).is_some() { println!("{}", a.verif_ast_debug(0).unwrap()); }
+    for off in 0..main.len() {
+        if let Some(d) = a.definition_at(0, off) { println!("{off} {:?} -> f{} {:?}", &main[off..off+1], d.file_id, d.range); }
+    }
 }
